@@ -202,7 +202,7 @@ def check_history(xs: List[int], ops: List[int], k: int, hoist: int) -> bool:
     valid = False        # model: a complete cache is stored
     with world([cache_mod]) as fs:
         for op in ops:
-            o = 0 if op <= 0 else (1 if op == 1 else (2 if op == 2 else (3 if op == 3 else 4)))
+            o = 0 if op <= 0 else (1 if op == 1 else (2 if op == 2 else (3 if op == 3 else (4 if op == 4 else 5))))
             up = Up()
             if o == 0 or o == 2:
                 c = new_cache(fs, recompute=(o == 2))
@@ -242,10 +242,12 @@ def check_history(xs: List[int], ops: List[int], k: int, hoist: int) -> bool:
                     return h.ok(False)
                 valid = None            # unknown: a later run either replays or recomputes
             else:
-                c = new_cache(fs)
-                if c.cache_exists():
+                # drop_cache() of a plain Cache object (3) or of one created
+                # with recompute=True (5): the stored file is gone afterwards
+                c = new_cache(fs, recompute=(o == 5))
+                if c._filename in fs.files:
                     c.drop_cache()
-                    if c.cache_exists():
+                    if c._filename in fs.files or new_cache(fs).cache_exists():
                         return h.ok(False)
                 valid = False
     return h.ok(True)
